@@ -2046,15 +2046,19 @@ _dispatch_disk_cleanup_inactive_operations(dispatch_disk_t disk,
 
 static void
 _dispatch_disk_cleanup_fd_entry_operations(dispatch_disk_t disk,
-		dispatch_fd_entry_t fd_entry)
+		dispatch_operation_t failed_op)
 {
 	// On pick queue
+	dispatch_fd_entry_t fd_entry = failed_op->fd_entry;
 	dispatch_operation_t op, tmp;
 	TAILQ_FOREACH_SAFE(op, &disk->operations, operation_list, tmp) {
-		if (op->fd_entry == fd_entry) {
-			_dispatch_op_debug("cleanup: disk %p", op, disk);
-			_dispatch_disk_complete_operation(disk, op);
-		}
+		if (op->fd_entry != fd_entry) continue;
+		// Other operations that have been picked already are completed by
+		// their own perform: completing them here as well would complete
+		// them twice
+		if (op->active && op != failed_op) continue;
+		_dispatch_op_debug("cleanup: disk %p", op, disk);
+		_dispatch_disk_complete_operation(disk, op);
 	}
 }
 
@@ -2330,7 +2334,7 @@ _dispatch_disk_perform(void *ctxt)
 		case DISPATCH_OP_FD_ERR:
 			// The file descriptor of this operation has failed, the other
 			// files on this disk have not
-			_dispatch_disk_cleanup_fd_entry_operations(disk, op->fd_entry);
+			_dispatch_disk_cleanup_fd_entry_operations(disk, op);
 			break;
 		default:
 			dispatch_assert(result);
